@@ -84,11 +84,26 @@ def statement(line, answer):
         if answer.startswith("1 ["):
             _, p1, sx = answer.split(" ", 2)
             return f"can_apply {root} {p0} {rule} = true /\\ apply {root} {p0} {rule} = ROk ({coq_expr(P.sx_parse(sx))}, {path(p1)})"
+    if ws[0] == "PLAN" and len(ws) > 4:
+        rule = {"AS": "RAssoc", "CS": f"(RComm {'true' if ws[2] == '1' else 'false'})", "CA": "RConst", "DF": f"(RFactor {'true' if ws[2] == '1' else 'false'})",
+                "DM": "RDistr", "MI": "RInverse", "RS": "RRestate", "VM": "RVarMul", "BM": "RBalanced"}.get(ws[1])
+        if rule is None:
+            return None
+        path = lambda s: "[" + "; ".join("DL" if c == "L" else "DR" for c in s.strip("[]")) + "]"
+        root = coq_expr(P.sx_parse(" ".join(ws[4:])))
+        p0 = path(ws[3])
+        if answer == "NONE":
+            return f"plan_result {root} {p0} {rule} = None"
+        if answer.startswith("OK ") and " ; " in answer:
+            head, prov = answer[3:].split(" ; ", 1)
+            q, lin, sx = head.split(" ", 2)
+            pv = "[" + "; ".join("None" if x == "-" else f"Some {path(x)}" for x in prov.split()) + "]"
+            return f"plan_result {root} {p0} {rule} = Some ({path(q)}, {coq_expr(P.sx_parse(sx))}, {pv}, {'true' if lin == '1' else 'false'})"
     return None
 
 
 HEADER = """From Coq Require Import List NArith ZArith QArith Bool.
-From Mathy Require Import Tok Lexer Num Expr Parser Printer Eval Rules.
+From Mathy Require Import Tok Lexer Num Expr Parser Printer Eval Rules Plans.
 Import ListNotations.
 """
 
